@@ -48,7 +48,7 @@ Diff(x, e) ==
 Internal(x) ==
   UNION {IF OpStepEnabled(x, i) THEN {OpStep(x, i)} ELSE {} : i \in OpIds} \cup
   UNION {IF Due(x, OpTimer(i)) THEN {OpTimerFire(x, i)} ELSE {} : i \in OpIds} \cup
-  (IF VaStartedEnabled(x) THEN {VaStarted(x)} ELSE {}) \cup {Begin(x)}
+  (IF x.up THEN {VaStarted(x, j) : j \in VaDone(x)} ELSE {}) \cup {Begin(x)}
 
 Apply(x, e) ==
   CASE e.c = "UserOp"       -> {UserOp(x, e.a.i, e.a.k, e.a.a, e.a.h)}
@@ -60,17 +60,22 @@ Apply(x, e) ==
     [] e.c = "UserUnsub"    -> {UserUnsub(x, e.a.id, e.a.fam)}
     [] e.c = "VaSubscribe"  -> {VaSubscribe(x, e.a.mode, e.a.audio)}
     [] e.c = "VaUnsub"      -> {VaUnsub(x)}
+    [] e.c = "VaRelease"    -> {VaRelease(x, e.a.n, e.a.res)}
     [] e.c = "EnvChunk"     -> {EnvChunk(x, e.a.ms)}
     [] e.c = "EnvClose"     -> {EnvClose(x)}
     [] e.c = "idle"         -> IF Quiescent(x) /\ NothingDue(x) THEN {Begin(x)} ELSE {}
     [] OTHER                -> Internal(x)
 
+\* A released start handler resuming and ending changes nothing observable: that callback is no row of the
+\* trace.  Any of the woken handlers may have taken that step before the row.
+Pre(x) == {[x EXCEPT !.va.q = [j \in 1..Len(@) |-> IF j \in S THEN [@[j] EXCEPT !.st = IF @ = "w_port" THEN "port" ELSE "noport"] ELSE @[j]]]
+             : S \in SUBSET VaWoken(x)}
 TStep ==
   /\ l <= Len(T.rows)
   /\ LET e == T.rows[l] IN
        \/ /\ CanAdvance(s, e.t)
-          /\ \E y \in Apply(Advance(s, e.t), e) : Match(y, e) /\ s' = y
-       \/ /\ ~(CanAdvance(s, e.t) /\ \E y \in Apply(Advance(s, e.t), e) : Match(y, e))
+          /\ \E x1 \in Pre(Advance(s, e.t)) : \E y \in Apply(x1, e) : Match(y, e) /\ s' = y
+       \/ /\ ~(CanAdvance(s, e.t) /\ \E x1 \in Pre(Advance(s, e.t)) : \E y \in Apply(x1, e) : Match(y, e))
           /\ PrintT(<<"DIAG", tid, l, IF ~CanAdvance(s, e.t) THEN {{"skipped_timer"}}
                                       ELSE IF Apply(Advance(s, e.t), e) = {} THEN {{"not_enabled"}}
                                       ELSE {Diff(y, e) : y \in Apply(Advance(s, e.t), e)}>>)
